@@ -217,6 +217,9 @@ func (r *Runner) vecToken(got []float32, metric, prec string) string {
 }
 
 func (r *Runner) mval(tok string) any {
+	if tok != "m1" && tok != "m2" {
+		return tok // a metadata value that names a graph node (auto-link profiles)
+	}
 	switch r.P.Variant % 3 {
 	case 0:
 		return map[string]any{"m1": "s1", "m2": "s2"}[tok]
@@ -233,7 +236,30 @@ func (r *Runner) mtoken(v any) string {
 			return tok
 		}
 	}
+	if sv, ok := v.(string); ok {
+		for _, g := range r.P.GNodes {
+			if g == sv {
+				return sv
+			}
+		}
+	}
 	return fmt.Sprintf("?(%v)", v)
+}
+
+// autoLinkFires: the index carries the rule "alk" and the metadata of the insertion has the key "k".
+func (r *Runner) autoLinkFires(n string, um map[string]any) bool {
+	if r.E == nil || um == nil {
+		return false
+	}
+	if s, ok := um["k"].(string); !ok || s == Nil {
+		return false
+	}
+	idx, ok := r.E.DB.GetVectorIndex(n)
+	if !ok {
+		return false
+	}
+	h, ok := idx.(*hnsw.Index)
+	return ok && alToken(h.GetAutoLinks()) == "alk"
 }
 
 func (r *Runner) meta(um map[string]any) map[string]any {
@@ -316,6 +342,9 @@ func alOf(tok string) []hnsw.AutoLinkRule {
 		return []hnsw.AutoLinkRule{{MetadataField: "parent_doc", RelationType: "child_of", CreateNode: true}}
 	case "al2":
 		return []hnsw.AutoLinkRule{{MetadataField: "chat", RelationType: "in_chat"}, {MetadataField: "parent_doc", RelationType: "child_of"}}
+	case "alk":
+		// fires on the model's metadata key "k": the value names the target node, relation "r"
+		return []hnsw.AutoLinkRule{{MetadataField: "k", RelationType: "r", CreateNode: true}}
 	}
 	return nil
 }
@@ -324,7 +353,7 @@ func alToken(rules []hnsw.AutoLinkRule) string {
 	if len(rules) == 0 {
 		return Nil
 	}
-	for _, tok := range []string{"al1", "al2"} {
+	for _, tok := range []string{"al1", "al2", "alk"} {
 		if reflect.DeepEqual(rules, alOf(tok)) {
 			return tok
 		}
@@ -466,6 +495,18 @@ func (r *Runner) Exec(op map[string]any) (string, error) {
 			r.clock++
 			r.clockReal[r.clock] = time.Now().UnixNano()
 			tick()
+		case "VAdd", "VAddBatch":
+			// an auto-link created by the insertion advances the model's clock (one tick per created edge)
+			if um, _ := op["meta"].(map[string]any); out == "ok" && r.autoLinkFires(str(op, "n"), um) {
+				n := 1
+				if str(op, "op") == "VAddBatch" {
+					n = 2
+				}
+				for j := 0; j < n; j++ {
+					r.clock++
+					r.clockReal[r.clock] = time.Now().UnixNano()
+				}
+			}
 		case "VDelete", "VDeleteCut":
 			if out == "ok" {
 				r.clock++
